@@ -126,10 +126,18 @@ impl Monitor for Mon {
         for (rfc, at) in &obs.continuous {
             let mut freqs = exp.rx2_freqs.clone();
             let mut drs = exp.rx2_drs.clone();
-            if let (Some(first), Some(after)) = (obs.first_delivery_at, &rec.snap_after) {
-                if *at > first {
-                    freqs.push(after.rx2_frequency.unwrap_or(rr::rx2_default(region).0));
-                    drs.push(after.rx2_data_rate.unwrap_or(rr::rx2_default(region).1));
+            if let (Some(first), Some(last), Some(after)) = (obs.first_delivery_at, obs.last_delivery_at, &rec.snap_after) {
+                let af = after.rx2_frequency.unwrap_or(rr::rx2_default(region).0);
+                let ad = after.rx2_data_rate.unwrap_or(rr::rx2_default(region).1);
+                if *at > last && w.env.borrow().unspecified_seen == 0 {
+                    // nothing is received after this point of the operation: the parameters the device holds
+                    // at the end of the operation are the ones in force when this listening was configured
+                    freqs = vec![af];
+                    drs = vec![ad];
+                    stats.bump("probe.rxc-after-last-frame-checked");
+                } else if *at > first {
+                    freqs.push(af);
+                    drs.push(ad);
                 }
             }
             if !freqs.contains(&rfc.freq) || !drs.iter().any(|d| rf_is_dr(region, rfc, *d)) {
